@@ -223,6 +223,20 @@ def _observe_unsynced(ctx, who, draw, old, new):
         _obs(ctx, "mut_draw_after_update_without_reinitialize", "%s:raises" % who)
 
 
+def _start(ctx, tags, r, st):
+    """current state the transition starts from: one of the two lattice states of the main part - but never the exact posterior
+    mean of the assignment reached.  (With perturbation 0 the inner CGLS would then start AT the solution: its stopping rule is
+    relative to the normal residual of the starting point, which is rounding noise there, so it iterates on noise until maxit.
+    That coincidence has probability zero for a real chain and says nothing about the draw; it is a remark about the solver's
+    stopping rule (C16), recorded as an observation.)"""
+    L = _L()
+    x0 = tags[r % 2][1]
+    if L.rel_err(x0, L.qnp(st["mu_q"])) < 1e-6:
+        _obs(ctx, "mut_start_state_moved_off_exact_posterior_mean", "n=%d" % st["n"])
+        x0 = tags[(r + 1) % 2][1]
+    return x0
+
+
 def rto_chain(ctx, states, mode, steps, rot, carry_extra=None):
     """One path of LinGaussMut on ONE posterior object and ONE experimental sampler (+ a new legacy sampler after every update).
     steps: list of lists of fields; the fields of one inner list are toggled one after the other WITHOUT anything in between,
@@ -247,7 +261,7 @@ def rto_chain(ctx, states, mode, steps, rot, carry_extra=None):
         s.initialize()
         leg0 = cuqi.sampler.LinearRTO(post, x0=np.zeros(n), maxit=c06.MAXIT, tol=c06.TOL)
         # the sampler is USED before anything is updated
-        _readoff(ctx, carry, "mut/rto/experimental", c06._exp_draw(s, tags[rot % 2][1]), st, sg("experimental", "built", "none", "1111"),
+        _readoff(ctx, carry, "mut/rto/experimental", c06._exp_draw(s, _start(ctx, tags, rot, st)), st, sg("experimental", "built", "none", "1111"),
                  "freshly initialised sampler")
     except L.MachineryError:
         raise
@@ -268,7 +282,7 @@ def rto_chain(ctx, states, mode, steps, rot, carry_extra=None):
         except Exception as e:      # noqa: BLE001
             _obs(ctx, "mut_setter_refused", "rto:%s:%s" % (ftag, type(e).__name__))
             return
-        x0 = tags[(rot + i + 1) % 2][1]
+        x0 = _start(ctx, tags, rot + i + 1, st)
         # --- experimental: between the update and the reinitialisation nothing is specified (observation)
         if i == 0:
             _observe_unsynced(ctx, "experimental.LinearRTO", c06._exp_draw(s, x0), old, st)
@@ -314,7 +328,7 @@ def check_rto_group(ctx, states, i):
     rto_chain(ctx, states, "cold", [_rot(RTO_FIELDS[::-1], r)], r + 1)
     # partial: ONE field (the warm chain starts with perm[0]); pairs of fields in the thorough tier
     partial = [[f] for f in perm[1:]] if ctx.tier == "thorough" else [[perm[(2 + r // 4) % 3 + 1]]]
-    if ctx.tier == "thorough":
+    if ctx.tier == "thorough" and i % 3 == ctx.seed % 3:
         partial += [[perm[0], perm[2]], [perm[1], perm[3]]]
     for fs in partial:
         rto_chain(ctx, states, "partial", [fs], r + 2)
